@@ -265,4 +265,19 @@ CHECKS = {
              "namespace table of generator sites, syn/quote/prettyplease; four genuine parameter-name collisions are listed in known_findings.json",
         technique="static analysis: term extraction from typed HIR + abstract interpretation of the naming helpers over character classes",
         design_ref="DESIGN.md section 4 C26"),
+    "C27": dict(
+        category="other",
+        text="Narrow: the value conversions and the shim wiring of the Python bindings. Complete decision table of "
+             "<FieldValue as FromPyObject>::extract by abstract evaluation over one Python object per class the conversions can "
+             "distinguish (None, bools, integers at every 64-bit boundary, finite / non-finite floats, str, unsupported objects, "
+             "lists incl. nested, with nulls, mixed and failing elements) against the faithful conversion; table of into_pyobject "
+             "and the round trip; both From conversions with trustfall_core's FieldValue are identities (lists elementwise); "
+             "arguments and rows are converted entry by entry with errors propagated as Python exceptions; every AdapterShim "
+             "resolver calls the Python method of its own name with arguments in API order and pairs tuple element 0 (context) "
+             "with element 1 (value); no numeric `as` cast in the bindings. Not decided: equality of rows across the language "
+             "boundary, the Python-side adapter, pyo3 itself.",
+        note="trusted: the pyo3 0.29 conversion model written from its documentation (bool exact; integer extraction by range; f64 "
+             "extraction accepts ints); integers outside 64 bits are outside the property's value kinds",
+        technique="static analysis: abstract interpretation of the conversion impls over Python object classes + structural wiring rules over typed HIR + MIR cast scan",
+        design_ref="DESIGN.md section 4 C27"),
 }
